@@ -231,3 +231,46 @@ Example C15_copy_build_from_live_model_example :
   | _ => False
   end.
 Proof. exact copy_build_from_live_model_example. Qed.
+
+(* reserved names.  build_model rejects node names with the prefix "_model"; pop / copy drop names with the
+   prefix "_model": a name accepted by build is kept by pop (the two predicates of the code agree), so a
+   popped model loses only nodes that build_model itself created.  A narrower build-time check (seeded
+   change C15-4) would accept a user node that pop silently drops. *)
+Theorem C15_build_accepts_pop_keeps : forall w m i,
+  In i (m_nodes m) -> build_reserved (name_of w i) = false -> In i (popped_nodes w m).
+Proof. exact pop_keeps_accepted_nodes. Qed.
+Print Assumptions C15_build_accepts_pop_keeps.
+
+Theorem C15_narrow_reserved_check_refuted :
+  exists s, prefix "_model_" s = false /\ pop_dropped s = true /\
+            popped_nodes (mkW [mkN s [] [] None None false false true [] []] [] []) (mkM [0] []) = [].
+Proof. exact narrow_reserved_check_refuted. Qed.
+Print Assumptions C15_narrow_reserved_check_refuted.
+
+(* seed inputs: the name given to a seed node matches the stripping pattern for EVERY node name, so the stale
+   seed input of a popped / copied node is removed by the next build also after the node was renamed *)
+Theorem C15_seed_name_matches_pattern : forall nm, is_model_seed_name (seed_name_for nm) = true.
+Proof. exact seed_name_matches_pattern. Qed.
+Print Assumptions C15_seed_name_matches_pattern.
+
+Theorem C15_strip_removes_stale_seed : forall w i n s nm,
+  getn w i = Some n -> kw_find "seed" (n_kw n) = Some s -> n_inmodel n = false ->
+  name_of w s = seed_name_for nm ->
+  strip_one w i = setn w i (set_kw (kw_remove "seed" (n_kw n))).
+Proof. exact strip_one_removes_stale_seed. Qed.
+Print Assumptions C15_strip_removes_stale_seed.
+
+Example C15_rename_between_pop_and_rebuild_example :
+  match build true true true naive_topo false ex_seeded [] [0] with
+  | (w1, Ok m1) =>
+    let w2 := fst (mutate true (pop w1 m1) (TNode 1) (MSetName "t")) in
+    match build true true true naive_topo false w2 (popped_nodes w2 m1) (m_vars m1) with
+    | (w3, Ok m3) => In "_model_t_seed"%string (map (name_of w3) (m_nodes m3)) /\
+                     ~ In "_model_s_seed"%string (map (name_of w3) (m_nodes m3)) /\
+                     is_model_seed_name "_model_s_seed" = true /\
+                     String.eqb "_model_s_seed" (seed_name_for "t") = false
+    | _ => False
+    end
+  | _ => False
+  end.
+Proof. exact rename_between_pop_and_rebuild_example. Qed.
